@@ -517,7 +517,9 @@ def gate(F, R):
             if m is not None and M.rows(m.fe) is not None:
                 blocking = False
                 for s in M.states(m.fe):
-                    fl = ' '.join(M.internal_flags(s))
+                    # the library's blocking flags count wherever the state lists them: internal_flag_list (terminate_state /
+                    # interrupt_state of the functor front-end, PlantUML) or the plain flag_list (eUML terminate / interrupt states)
+                    fl = ' '.join(list(M.internal_flags(s)) + list(M.flags(s)))
                     if 'TerminateFlag' in fl or 'InterruptedFlag' in fl: blocking = True
             qnodes = {i for i, q, op in queue_ops(f)}
             def eff(i, n):
